@@ -99,8 +99,20 @@ void vf_fsm_term(struct osmo_fsm_inst *fi, enum osmo_fsm_term_cause cause)
 }
 
 /* ---- timers, fds, sockets --------------------------------------------- */
-void osmo_timer_schedule(struct osmo_timer_list *t, int s, int us) { timer_armed = 1; }
-void osmo_timer_del(struct osmo_timer_list *t) { timer_armed = 0; }
+/* libosmocore keeps every armed timer linked in its timer tree and looks at it on each pass of
+ * the main loop: the stand-in remembers the armed timer and looks at it after every operation,
+ * so a timer left armed inside memory that has been freed is a use after free here as well */
+static struct osmo_timer_list *armed;
+void osmo_timer_schedule(struct osmo_timer_list *t, int s, int us) { timer_armed = 1; armed = t; }
+void osmo_timer_del(struct osmo_timer_list *t) { timer_armed = 0; if (armed == t) armed = NULL; }
+static void timer_pass(void)
+{
+	if (armed) {
+		void (*volatile cb)(void *) = armed->cb;
+		void *volatile data = armed->data;
+		(void)cb; (void)data;
+	}
+}
 void osmo_fd_unregister(struct osmo_fd *fd) { }
 
 int osmo_sock_init2_ofd(struct osmo_fd *ofd, int family, int type, int proto,
@@ -219,6 +231,7 @@ static unsigned int qlen(void)
 
 static void status(const char *op, int rc)
 {
+	timer_pass();
 	printf("{\"op\":\"%s\",\"rc\":%d,\"st\":%d,\"term\":%d,\"q\":%u,\"timer\":%d,\"illegal\":%d",
 	       op, rc, the_fi ? (int)the_fi->state : -1, the_fi ? the_fi->terminated : 1, qlen(), timer_armed,
 	       the_fi ? the_fi->illegal_transition : 0);
